@@ -5,7 +5,7 @@ import sys
 from . import core, attach
 
 
-def make_scfg(g, payload="basic", how="ctor"):
+def make_scfg(g, payload="basic", how="ctor", backedges=None):
     """how: 'ctor' = SCFG(graph) ; 'add_block' = an empty SCFG() filled block by
     block through the public add_block (how FlowInfo.build_basicblocks
     assembles its graph); 'assign' = an empty SCFG() whose public graph dict is
@@ -19,12 +19,14 @@ def make_scfg(g, payload="basic", how="ctor"):
     )
 
     graph = {}
+    be = backedges or {}
     for i, (k, v) in enumerate(g.items()):
         if payload == "basic":
-            graph[k] = BasicBlock(name=k, _jump_targets=tuple(v))
+            graph[k] = BasicBlock(name=k, _jump_targets=tuple(v), backedges=tuple(be.get(k, ())))
         elif payload == "bytecode":
             graph[k] = PythonBytecodeBlock(
-                name=k, _jump_targets=tuple(v), begin=2 * i, end=2 * i + 2
+                name=k, _jump_targets=tuple(v), begin=2 * i, end=2 * i + 2,
+                backedges=tuple(be.get(k, ()))
             )
         elif payload == "ast":
             import ast
@@ -50,6 +52,7 @@ def make_scfg(g, payload="basic", how="ctor"):
     return SCFG(graph)
 
 
+_PLAIN = re.compile(r"[A-Za-z0-9_]+")
 _GENERATED = re.compile(r"(_block_|_region_|__scfg_)")
 
 
@@ -92,7 +95,12 @@ def reload_plan(g, payload):
     if payload == "ast":
         return None  # an AST payload cannot be written (C15 scope)
     r = int(core.graph_hash(g)[8:12], 16) % 8
-    return {0: ("L", "dict"), 1: ("L", "yaml"), 2: ("J", "dict")}.get(r)
+    plan = {0: ("L", "dict"), 1: ("L", "yaml"), 2: ("J", "dict")}.get(r)
+    if plan and plan[1] == "yaml" and not all(_PLAIN.fullmatch(k) for k in g):
+        # names no front end or generator produces (blanks, non-ASCII, empty):
+        # their YAML spelling is outside C15's statement; go through the dict
+        plan = (plan[0], "dict")
+    return plan
 
 
 def run_stages_reload(scfg, stages, ctx, plan):
